@@ -42,6 +42,10 @@ pub struct Step {
     /// None = commit the preselected index, Some(f) = index by fraction
     pub commit: Option<u16>,
     pub restart: bool,
+    /// type this extra letter and erase it again before the commit (the list that is committed from was
+    /// then returned by a backspace, not by a key)
+    #[serde(default)]
+    pub detour: Option<char>,
 }
 
 #[derive(Clone, Debug, Serialize, Deserialize, Hash)]
@@ -137,7 +141,12 @@ pub fn run_case(run: &Run, c: &Case, st: &mut Stats) -> Result<(), Failure> {
         };
         let x = format!("{l}{w}{t}");
         typed.push((l.clone(), w.clone(), t.clone()));
-        let r: Rendered = ctx.type_frontend(&x).map_err(|p| pf(p, &log))?.unwrap();
+        let mut r: Rendered = ctx.type_frontend(&x).map_err(|p| pf(p, &log))?.unwrap();
+        if let (Some(d), true) = (step.detour, x.chars().last().map(|c| c.is_ascii_alphanumeric()).unwrap_or(false)) {
+            ctx.ch(d, r.sel.min(255) as u8).map_err(|p| pf(p, &log))?;
+            r = ctx.backspace(false).map_err(|p| pf(p, &log))?;
+            st.label("commit-after-backspace");
+        }
         if r.lonely || r.cands.is_empty() {
             return Err(fail("not-list", format!("typed {x:?}: {}", r.short()), c, &log));
         }
@@ -288,7 +297,8 @@ pub fn strategy() -> impl Strategy<Value = Case> {
         3 => any::<u8>().prop_map(|k| StepKind::Retype { k }),
         2 => (any::<u8>(), any::<u16>(), any::<u8>()).prop_map(|(k, suffix, wrap)| StepKind::Suffixed { k, suffix, wrap }),
     ];
-    let step = (kind, prop_oneof![3 => Just(None), 7 => any::<u16>().prop_map(Some)], proptest::bool::weighted(0.3)).prop_map(|(kind, commit, restart)| Step { kind, commit, restart });
+    let detour = prop_oneof![4 => Just(None), 1 => proptest::sample::select(vec!['k', 'e', 'r', 'a']).prop_map(Some)];
+    let step = (kind, prop_oneof![3 => Just(None), 7 => any::<u16>().prop_map(Some)], proptest::bool::weighted(0.3), detour).prop_map(|(kind, commit, restart, detour)| Step { kind, commit, restart, detour });
     (any::<bool>(), any::<bool>(), proptest::collection::vec(step, 2..9), proptest::collection::vec((any::<u8>(), any::<u16>()), 3..4))
         .prop_map(|(english, smart, steps, probes)| Case { english, smart, steps, probes })
 }
@@ -297,6 +307,7 @@ pub fn run(run: &Run) {
     run.sharded("learn-retype-restart", 16, run.tier.pick(250, 6000), 400, strategy, |_| (), |c: &Case, st, _| run_case(run, c, st));
     run.require_label("retyped-after-restart", 30);
     run.require_label("suffixed-text-step", 100);
+    run.require_label("commit-after-backspace", 100);
     run.require_label("learning-commit", 100);
     run.require_label("suffix-check-with-two-agreeing-decompositions", 3);
 }
